@@ -189,20 +189,24 @@ PROPERTIES = {
                 assumptions=["GoIdent operands are rendered by the recording stub as <import path>.<name> for both generators alike",
                              "annotated types defined in other files of the run and plugin-order effects on the file system are not part of this check"]),
     "C15": dict(G_HTTPGEN, replay_repeat=12,
-                overlay={"internal/httpgen/zz_verif_c15.go": "harness/c15/c15_headers.go"},
+                overlay={"internal/httpgen/zz_verif_c15.go": "harness/c15/c15_headers.go", "internal/httpgen/zz_verif_c15m.go": "harness/c15/c15_mock.go",
+                         "internal/httpgen/zz_verif_c20w.go": "harness/c20/c20_world.go"},
                 harnesses=[dict(func="VerifC15CombineHeaders", reach=["C15/headers/decided"], quick=dict(budget=300, parts=4, flags=["-mapperm"]), thorough=dict(budget=900, parts=8, flags=["-mapperm"])),
-                           dict(func="VerifC15RequestVariations", reach=["C15/request/decided"], quick=dict(budget=200, flags=["-mapperm"]), thorough=dict(budget=600, flags=["-mapperm"]))],
+                           dict(func="VerifC15RequestVariations", reach=["C15/request/decided"], quick=dict(budget=200, flags=["-mapperm"]), thorough=dict(budget=600, flags=["-mapperm"])),
+                           dict(func="VerifC15MockAcrossFiles", reach=["C15/mock/decided"], quick=dict(budget=100), thorough=dict(budget=300))],
                 bounds_text={"quick": "CombineHeaders: 1 service + 2 method declarations with symbolic one-letter names over [abAB] (case variants included), every iteration order of every Go map ranged over (symbolic permutation, maps of 2..4 entries), two evaluations compared. "
                                       "Request variations: go-http and go-client on a service file + same-package wrapper file (unwrap map value) + unrelated file: permuted file order, extra file first/last, single-file invocation; emission traces of the service file compared"},
                 assumptions=["Go map iteration order is modelled as an arbitrary permutation chosen per range statement (maps with more than 4 entries iterate in insertion order)",
                              "the generators start no goroutines and read no clock/environment on these paths (such a call would abort the path as unsupported)",
                              "TS and OpenAPI generators, byte rendering by libopenapi/yaml and plugin parameters are not yet part of this check"]),
     "C16": dict(G_HTTPGEN, load_pkgs=["./internal/httpgen", "./cmd/protoc-gen-openapiv3"], replay_timeout=240,
-                overlay={"internal/httpgen/zz_verif_c16.go": "harness/c16/c16_termination.go",
+                overlay={"internal/httpgen/zz_verif_c16.go": "harness/c16/c16_termination.go", "internal/httpgen/zz_verif_c16m.go": "harness/c16/c16_mock_maps.go",
+                         "internal/httpgen/zz_verif_c20w.go": "harness/c20/c20_world.go",
                          "cmd/protoc-gen-openapiv3/zz_verif_c16.go": "harness/c16main/c16_main.go"},
                 harnesses=[dict(func="VerifC16Traversals", reach=["C16/traversals/decided"], quick=dict(budget=300, parts=8, flags=["-maxpaths", "100000"]), thorough=dict(budget=900, parts=16, flags=["-maxpaths", "400000"])),
                            dict(func="VerifC16Mock", reach=["C16/mock/decided", "C16/mock/recursive"], quick=dict(budget=300, parts=8, flags=["-maxpaths", "100000"]), thorough=dict(budget=900, parts=16, flags=["-maxpaths", "400000"])),
                            dict(func="VerifC16DeepDiamond", reach=["C16/diamond/decided"], quick=dict(budget=100), thorough=dict(budget=300)),
+                           dict(func="VerifC16MockMapCycles", reach=["C16/mock-maps/decided"], quick=dict(budget=200), thorough=dict(budget=600)),
                            dict(func="VerifC16NameKernelsSnake", reach=["C16/kernels/snake"], quick=dict(budget=200), thorough=dict(budget=600)),
                            dict(func="VerifC16NameKernelsHeader", reach=["C16/kernels/header"], quick=dict(budget=200), thorough=dict(budget=600)),
                            dict(func="VerifC16NameKernelsCamel", reach=["C16/kernels/camel"], quick=dict(budget=200), thorough=dict(budget=600)),
@@ -251,9 +255,11 @@ PROPERTIES = {
         groups=[
             dict(G_HTTPGEN,
                  overlay={"internal/httpgen/zz_verif_c12_common.go": "harness/c12/c12_common.go", "internal/httpgen/zz_verif_c14.go": "harness/c14/c14_codecs.go",
-                          "internal/httpgen/zz_verif_c20.go": "harness/c20/c20_mock_g.go"},
+                          "internal/httpgen/zz_verif_c20.go": "harness/c20/c20_mock_g.go", "internal/httpgen/zz_verif_c20w.go": "harness/c20/c20_world.go",
+                          "internal/httpgen/zz_verif_c20t.go": "harness/c20/c20_mock_tree.go"},
                  harnesses=[dict(func="VerifC20MockTyping", reach=["C20/typing/decided", "C20/typing/kf-cardinality"], quick=dict(budget=200), thorough=dict(budget=600)),
-                            dict(func="VerifC20MockMapTypes", reach=["C20/map/decided"], quick=dict(budget=100), thorough=dict(budget=300))]),
+                            dict(func="VerifC20MockMapTypes", reach=["C20/map/decided"], quick=dict(budget=100), thorough=dict(budget=300)),
+                            dict(func="VerifC20MockTree", reach=["C20/tree/decided"], quick=dict(budget=100), thorough=dict(budget=300))]),
             dict(mode="E", schemas=[dict(name="mock", run="go,go-http", param="paths=source_relative;go-http:generate_mock=true")],
                  load_pkgs=["./gen/mock"], pkgpath="verifmod/gen/mock", test_pkg="./gen/mock", test_pkgname="mock", init=[MOD + "/http", "verifmod/gen/mock"],
                  overlay={"gen/mock/zz_verif_c20.go": "harness/c20/c20_mock_e.go"},
